@@ -1,6 +1,11 @@
 package centrifuge
 
-import "github.com/centrifugal/centrifuge/internal/redispartition"
+import (
+	"context"
+
+	"github.com/centrifugal/centrifuge/internal/redispartition"
+	"github.com/redis/rueidis"
+)
 
 // C34 (2): sharded PUB/SUB (Redis Cluster with NumShardedPubSubPartitions > 0),
 // RedisBroker and RedisMapBroker, with plain integer tags and with the
@@ -60,4 +65,75 @@ func vh_C34_sharded() {
 	vCover(!pre && idx >= 10, "two-digit-partition-index")
 	vCover(n >= 1 && ch[0] == '}', "channel-starting-with-close-brace")
 	vCover(n >= 1 && ch[0] == '.', "channel-starting-with-dot")
+}
+
+// C34 (real call sites): the real RedisMapBroker.Publish / Remove run up to
+// the script call; (*rueidis.Lua).Exec is replaced by a recorder, so the KEYS
+// and the PUB/SUB channel argument are the ones the call site really passes
+// (including its substitution of unused keys by a slot-aligned placeholder),
+// not a transcription. Redis Cluster with sharded PUB/SUB partitions, every
+// channel mode, with and without idempotency key: every key is non-empty and
+// in the slot of the PUB/SUB channel.
+type c34Captured struct {
+	keys, args []string
+}
+
+func vh_C34_map_call_sites() {
+	parts := 2
+	tags := []string{"t0", "t1"}
+	idx := vChoice("partition", parts)
+	vStub("github.com/centrifugal/centrifuge.consistentIndex", func(s string, n int) int { return idx })
+	mode := []MapMode{MapModeEphemeral, MapModeRecoverable, MapModePersistent}[vChoice("mode", 3)]
+	n := vNewNode(Config{Map: MapConfig{GetMapChannelOptions: func(string) MapChannelOptions {
+		opts := MapChannelOptions{Mode: mode}
+		if mode != MapModePersistent {
+			opts.KeyTTL = 60_000_000_000
+		}
+		return opts
+	}}})
+	s := &RedisShard{isCluster: true}
+	e := &RedisMapBroker{
+		node:          n,
+		conf:          RedisMapBrokerConfig{Prefix: c34Prefix, NumShardedPubSubPartitions: parts},
+		partitionTags: tags,
+		shardChannel:  c34Prefix + redisPubSubShardChannelSuffix,
+		messagePrefix: c34Prefix + redisClientChannelPrefix,
+		shards:        []*brokerShardWrapper{{shard: s}},
+		addScript:     &rueidis.Lua{},
+	}
+	var got *c34Captured
+	vStub("(*github.com/redis/rueidis.Lua).Exec", func(l *rueidis.Lua, ctx context.Context, c rueidis.Client, keys, args []string) rueidis.RedisResult {
+		got = &c34Captured{keys: keys, args: args}
+		panic("c34: script call recorded")
+	})
+	ch := vString("ch", 1+vChoice("len", 2))
+	idem := ""
+	if vChoice("idempotency_key", 2) == 1 {
+		idem = "i"
+	}
+	op := vChoice("op", 2)
+	func() {
+		defer func() { _ = recover() }()
+		if op == 0 {
+			_, perr := e.Publish(context.Background(), ch, "k", MapPublishOptions{Data: []byte{1}, IdempotencyKey: idem})
+			if perr != nil {
+				vTrace("publish error: " + perr.Error())
+			}
+		} else {
+			_, _ = e.Remove(context.Background(), ch, "k", MapRemoveOptions{IdempotencyKey: idem})
+		}
+	}()
+	if got == nil {
+		vFail("the script was not called")
+		return
+	}
+	vAssert(len(got.keys) == 8 && len(got.args) > 4, "script called with 8 keys")
+	chID := got.args[4]
+	vAssert(vStrEq(chID, e.messageChannelID(s, ch)), "channel argument is the PUB/SUB channel")
+	for _, k := range got.keys {
+		vAssert(len(k) > 0, "no empty key in cluster mode (an empty key hashes to slot 0)")
+		vAssert(c34SameSlot(k, chID), "every script key in the slot of the PUB/SUB channel")
+	}
+	vCover(op == 1 && mode == MapModeEphemeral, "remove-on-ephemeral-channel")
+	vCover(op == 0 && mode == MapModePersistent, "publish-on-persistent-channel")
 }
